@@ -28,7 +28,9 @@ func (suite *KeeperTestSuite) TestVerifFindingC07StaleOwnerTally() {
 	escrow := sdk.NewCoins(c(stake, 115), c(other, 107))
 	suite.Require().NoError(suite.app.BankKeeper.MintCoins(ctx, minttypes.ModuleName, escrow))
 	suite.Require().NoError(suite.app.BankKeeper.SendCoinsFromModuleToModule(ctx, minttypes.ModuleName, types.RequestAccName, escrow))
-	bal := func() sdk.Coins { return suite.app.BankKeeper.GetAllBalances(ctx, k.GetWithdrawAddress(ctx, testOwner)) }
+	bal := func() sdk.Coins {
+		return suite.app.BankKeeper.GetAllBalances(ctx, k.GetWithdrawAddress(ctx, testOwner))
+	}
 	before := bal()
 	suite.Require().NoError(k.WithdrawEarnedFees(ctx, testOwner, testProvider))
 	suite.Require().NoError(k.WithdrawEarnedFees(ctx, testOwner, nil))
